@@ -29,6 +29,7 @@ type fault struct {
 	fresh  bool   // the fault can only hit a connection that is being registered: dial one
 	second *fault // optional second fault (pairs)
 	site   string // restrict the fault to calls made from this framework function ("" = any)
+	greet  bool   // connections opened after the installation get a reply from OnOpen (the write inside conn.open)
 }
 
 func (f fault) String() string {
@@ -114,6 +115,9 @@ func faultList(c cfg, K int64) []fault {
 			out = append(out, f)
 		}
 	}
+	// the write of the OnOpen reply fails (the first write on a connection, made inside conn.open)
+	out = append(out, fault{call: vsys.CWrite, errno: unix.EPIPE, k: 1, class: "accepted", site: "(*conn).open", fresh: true, greet: true})
+	out = append(out, fault{call: vsys.CWrite, errno: unix.ECONNRESET, k: 1, class: "accepted", site: "(*conn).open", fresh: true, greet: true})
 	// registration of a new connection fails
 	for k := int64(1); k <= 2; k++ {
 		out = append(out, fault{call: vsys.CEpollAdd, errno: unix.ENOMEM, k: k, class: "accepted", fresh: true})
@@ -197,11 +201,15 @@ func (p *c18Peer) run(r *vlib.Rand) {
 func runC18Case(c cfg, seed uint64, f fault, keys map[string]struct{}) (reached bool) {
 	r := vlib.NewRand(seed)
 	var mon *monitor
+	var greetNow atomic.Bool
 	mon = newMonitor("c18", hooks{
 		onOpen: func(cs *connState, gc gnet.Conn) ([]byte, gnet.Action) {
 			cs.sc = &c18Conn{writev: vlib.Mix(cs.key)%3 == 0}
 			cs.armedLocal.Store(true)
 			cs.armedRemote.Store(true)
+			if greetNow.Load() {
+				return []byte("greeting"), gnet.None
+			}
 			return nil, gnet.None
 		},
 		onTraffic: func(cs *connState, gc gnet.Conn) gnet.Action {
@@ -300,6 +308,7 @@ func runC18Case(c cfg, seed uint64, f fault, keys map[string]struct{}) (reached 
 		vsys.PlanAdd(&vsys.Rule{Call: f.second.call, FD: -1, Index: f.second.k, Action: vsys.AErrno, Errno: f.second.errno, Once: true, After: firstRule})
 	}
 	var freshConn net.Conn
+	greetNow.Store(f.greet)
 	if f.fresh {
 		// the fault can only hit connections that are being accepted / registered: let k of them arrive
 		for i := int64(0); i < f.k; i++ {
@@ -499,6 +508,7 @@ func runC18Case(c cfg, seed uint64, f fault, keys map[string]struct{}) (reached 
 		}
 	}
 	// the engine still serves new connections
+	greetNow.Store(false)
 	if nc, err := dialPeer(life.dialNet, life.dialAddr); err != nil {
 		viol("engine no longer accepts connections", fmt.Sprint(err))
 	} else {
